@@ -66,7 +66,7 @@ func Types() []*Type {
 			if !spec.For(rt) || !Linked(rt, spec.Name) {
 				continue
 			}
-			if rt == corpus.Gogo && len(spec.Deps) > 0 {
+			if rt == corpus.Gogo && len(spec.AllDeps()) > 0 {
 				// protobuf-go's legacy wrapper cannot resolve a gogo file's imports (gogo files are not in the
 				// global registry), so gogo messages with imported types cannot be populated/read by reflection:
 				// they are generated and compiled (C16) but not part of the behavioural corpus
